@@ -18,6 +18,13 @@
    is built with overflow-checks = true / empty range / rejection limit), `Starved` when the supplied
    stream is too short (not an implementation behaviour; excluded in theorems by "= Ok ..").
 
+   Code versions: the tree pinned for this work computed the Fait Accompli seats in f64, shuffled the
+   validators of PartitionSampler::new with the thread RNG and had no special case for a TurbineSampler on
+   one or two validators.  /repo has since been repaired (904dbce integer seats, b638f0a fixed-seed
+   shuffle, 3524a23 small Turbine sets, a1e69e3 FA2 never hands out more than k seats).  `Current` is the code as it is now; `Pinned` keeps the earlier
+   behaviour reachable so that the `.._pinned_.._refuted` theorems stay statements about a faithful model of
+   that tree.  The check runs `construct_current`.
+
    Assumption stated once: the `ValidatorInfo` vector handed to a sampler has `id` = position
    (EpochInfo::new asserts it); a validator set is therefore the list of its stakes, all < 2^64.
 
@@ -27,9 +34,10 @@
      DecayingAcceptanceSampler::sample_quorum PartitionSampler::new PartitionSampler::sample_quorum
      FaitAccompli1Sampler::new_with_partition_fallback FaitAccompli1Sampler::new_with_stake_weighted_fallback
      FaitAccompli1Sampler::sample_quorum FaitAccompli2Sampler::new FaitAccompli2Sampler::minimize_f
-     FaitAccompli2Sampler::sample_quorum *)
+     FaitAccompli2Sampler::sample_quorum guaranteed_seats stake_of_seats
+     (rand) SliceRandom::shuffle IncreasingUniform::next_index calculate_bound_u32 *)
 From Coq Require Import List NArith ZArith Bool Floats Uint63.
-From AG Require Import Gen.Params.
+From AG Require Import Gen.Params Lib.ChaCha.
 Import ListNotations.
 Open Scope N_scope.
 
@@ -50,6 +58,11 @@ Inductive res (A : Type) : Type :=
 Arguments Ok {A} a rest.
 Arguments Panic {A}.
 Arguments Starved {A}.
+
+Inductive codever := Pinned | Current.
+
+(* StdRng::from_seed(seed): ChaCha12 keystream words; `blocks` bounds how much of it is materialised *)
+Definition stdrng (blocks : nat) (seed : list N) : stream := stdrng_words seed blocks.
 
 (* x mod 2^32, x mod 2^64, x / 2^64, x / 2^11 written with bit operations (cheap to evaluate);
    Proofs/SamplingProofs.v shows they are the arithmetic operations *)
@@ -283,13 +296,21 @@ End TurbineWeights.
 
 Definition e9 : float := Eval compute in (f64_of_N 1000000000).
 (* TurbineSampler::new_with_fanout: None = panic *)
-Definition turbine_weights (stakes : list N) (fanout : N) : option (list N) :=
+Definition turbine_weights_general (stakes : list N) (fanout : N) : option (list N) :=
   if W64 <=? sumN stakes then None                               (* Stake sum overflow *)
   else if lenN stakes <? 2 then None                             (* usize underflow: len - 1, then - 1 *)
   else if (3 <=? lenN stakes) && (fanout =? 0) then None         (* validators_left / turbine_fanout *)
   else
     let ws := map (fun w => f64_to_u64 (PrimFloat.mul w e9)) (turbine_expected_work stakes fanout) in
     if windex_ok ws then Some ws else None.                      (* StakeWeightedSampler::new expect *)
+Definition turbine_weights (cv : codever) (stakes : list N) (fanout : N) : option (list N) :=
+  match cv with
+  | Pinned => turbine_weights_general stakes fanout
+  | Current =>
+    (* with at most two validators: the validators' own stakes *)
+    if lenN stakes <=? 2 then (if windex_ok stakes then Some stakes else None)
+    else turbine_weights_general stakes fanout
+  end.
 
 Fixpoint reject_same (tries : nat) (sample : stream -> res N) (root : N) (s : stream) : res N :=
   match tries with
@@ -445,35 +466,46 @@ Definition shuffled (stakes : list N) (order : list N) : list (N * N) :=
 (* ------------------------------------------------------------------ *)
 (* Fait Accompli 1                                                     *)
 (* ------------------------------------------------------------------ *)
-(* seats pre-allocated to a validator: (stake as f64 / total as f64 * k as f64).floor() as u64 *)
+(* seats pre-allocated to a validator.
+   Pinned: (stake as f64 / total as f64 * k as f64).floor() as u64.
+   Current: guaranteed_seats = (stake as u128 * k as u128 / total as u128) as u64 - the quotient is at most k
+   because a stake is at most the total, so the cast loses nothing; division by zero panics. *)
 Definition fa_seats (s total k : N) : N :=
   f64_to_u64 (PrimFloat.mul (PrimFloat.div (f64_of_N s) (f64_of_N total)) (f64_of_N k)).
+Definition seats (cv : codever) (s total k : N) : N :=
+  match cv with Pinned => fa_seats s total k | Current => s * k / total end.
+Definition seats_panic (cv : codever) (total : N) : bool :=
+  match cv with Pinned => false | Current => total =? 0 end.
 Definition repeatN (x : N) (m : N) : list N := repeat x (N.to_nat m).
 
-(* the pre-allocation loop: (required samples, truncated stakes); None = panic *)
-Fixpoint fa1_loop (stakes : list N) (id total k : N) : option (list N * list N) :=
+(* the pre-allocation loop: (required samples, truncated stakes); None = panic.
+   The stake accounted for by m seats is m * total / k: in u64 (overflow panics) in the pinned tree, by
+   stake_of_seats in u128 now. *)
+Fixpoint fa1_loop (cv : codever) (stakes : list N) (id total k : N) : option (list N * list N) :=
   match stakes with
   | [] => Some ([], [])
   | s :: r =>
-    let m := fa_seats s total k in
-    if W64 <=? m * total then None                               (* samples * total_stake overflow *)
+    let m := seats cv s total k in
+    if seats_panic cv total then None                            (* u128 division by zero *)
+    else if (match cv with Pinned => W64 <=? m * total | Current => false end) then None
+                                                                 (* samples * total_stake overflow *)
     else if k =? 0 then None                                     (* division by zero *)
     else
       let sub := m * total / k in
       if s <? sub then None                                      (* Stake subtraction underflow *)
       else
-        match fa1_loop r (id + 1) total k with
+        match fa1_loop cv r (id + 1) total k with
         | Some (rq, tr) => Some (repeatN id m ++ rq, (s - sub) :: tr)
         | None => None
         end
   end.
 
 Record fa1_pre := mkFa1Pre { f1_required : list N; f1_weights : list N; f1_kprime : N }.
-Definition fa1_prepare (stakes : list N) (k : N) : option fa1_pre :=
+Definition fa1_prepare (cv : codever) (stakes : list N) (k : N) : option fa1_pre :=
   let total := sumN stakes in
   if W64 <=? total then None
   else
-    match fa1_loop stakes 0 total k with
+    match fa1_loop cv stakes 0 total k with
     | None => None
     | Some (rq, tr) =>
       if k <? lenN rq then None                                  (* k as usize - required_samples.len() *)
@@ -503,12 +535,15 @@ Definition fa2_f (s total k : N) : float :=
   PrimFloat.div (f64_round (PrimFloat.mul (rel_stake s total) (f64_of_N k))) (f64_of_N k).
 Definition fsum (l : list float) : float := fold_left PrimFloat.add l 0%float.
 
-Record fa2_state := mkFa2 { f2_required : list N; f2_medium : list (N * float); f2_weights : list N; f2_k : N }.
-Definition fa2_new (stakes : list N) (k : N) : option fa2_state :=
+(* f2_clamp: sample_quorum stops handing out medium seats once k seats are taken (a1e69e3); not in the pinned tree *)
+Record fa2_state := mkFa2 { f2_required : list N; f2_medium : list (N * float); f2_weights : list N; f2_k : N; f2_clamp : bool }.
+Definition fa2_new (cv : codever) (stakes : list N) (k : N) : option fa2_state :=
   let total := sumN stakes in
   if W64 <=? total then None
+  else if seats_panic cv total then None       (* guaranteed_seats divides by the total; an all-zero set
+                                                  cannot be sampled from anyway *)
   else
-    let required := flat_map (fun '(id, s) => repeatN id (fa_seats s total k)) (indexed 0 stakes) in
+    let required := flat_map (fun '(id, s) => repeatN id (seats cv s total k)) (indexed 0 stakes) in
     let f := map (fun s => fa2_f s total k) stakes in
     if negb (PrimFloat.leb (fsum f) 1%float) then None            (* assert!(f.iter().sum() <= 1.0) *)
     else
@@ -527,25 +562,29 @@ Definition fa2_new (stakes : list N) (k : N) : option fa2_state :=
                        then f64_to_u64 (PrimFloat.mul (PrimFloat.div (PrimFloat.sub rel fi) r) (f64_of_N total))
                        else 0) rows in
       let ws := if PrimFloat.eqb r 0%float then stakes else new_stakes in
-      if windex_ok ws then Some (mkFa2 required medium ws k) else None.
+      if windex_ok ws then Some (mkFa2 required medium ws k (match cv with Current => true | Pinned => false end)) else None.
 
-Fixpoint fa2_medium (medium : list (N * float)) (s : stream) : res (list N) :=
+(* the medium-node loop; `room` = seats still free (k - result.len(), saturating): with the clamp the loop
+   breaks - before drawing - once no seat is left *)
+Fixpoint fa2_medium (clamp : bool) (room : N) (medium : list (N * float)) (s : stream) : res (list N) :=
   match medium with
   | [] => Ok [] s
   | (v, p) :: r =>
-    match random_bool p s with
-    | Ok b s1 =>
-      match fa2_medium r s1 with
-      | Ok q s2 => Ok (if b then v :: q else q) s2
+    if clamp && (room =? 0) then Ok [] s
+    else
+      match random_bool p s with
+      | Ok b s1 =>
+        match fa2_medium clamp (if b then room - 1 else room) r s1 with
+        | Ok q s2 => Ok (if b then v :: q else q) s2
+        | Panic => Panic
+        | Starved => Starved
+        end
       | Panic => Panic
       | Starved => Starved
       end
-    | Panic => Panic
-    | Starved => Starved
-    end
   end.
 Definition fa2_sample (st : fa2_state) (s : stream) : res (list N) :=
-  match fa2_medium (f2_medium st) s with
+  match fa2_medium (f2_clamp st) (f2_k st - lenN (f2_required st)) (f2_medium st) s with
   | Ok med s1 =>
     let pre := f2_required st ++ med in
     match iid (N.to_nat (f2_k st - lenN pre)) (stake_sample (f2_weights st)) s1 with
@@ -590,15 +629,16 @@ Inductive sampler :=
 
 Definition decay_max (mnum mden : N) : float := PrimFloat.div (f64_of_N mnum) (f64_of_N mden).
 
-(* construction; `order` = the order into which PartitionSampler::new's thread-RNG shuffle put the
-   validators (only read by the two partition-based strategies) *)
-Definition construct (st : strategy) (stakes : list N) (order : list N) : cres sampler :=
+(* construction; `order` = the order into which PartitionSampler::new's shuffle put the validators (only
+   read by the two partition-based strategies): anything in the pinned tree (thread RNG), `fixed_order`
+   now (see construct_current below) *)
+Definition construct (cv : codever) (st : strategy) (stakes : list N) (order : list N) : cres sampler :=
   match st with
   | StAllSame v k => if v <? lenN stakes then COk (SmAllSame v k) else CPanic   (* validators[v] *)
   | StUniform k => COk (SmUniform (lenN stakes) k)
   | StStake k => if windex_ok stakes then COk (SmStake stakes k) else CPanic
   | StTurbine fanout k =>
-    match turbine_weights stakes fanout with
+    match turbine_weights cv stakes fanout with
     | Some ws => COk (SmTurbine fanout ws k)
     | None => CPanic
     end
@@ -610,7 +650,7 @@ Definition construct (st : strategy) (stakes : list N) (order : list N) : cres s
     | CHang => CHang
     end
   | StFA1Part k =>
-    match fa1_prepare stakes k with
+    match fa1_prepare cv stakes k with
     | None => CPanic
     | Some p =>
       match partition_new (shuffled (f1_weights p) order) (f1_kprime p) with
@@ -620,13 +660,13 @@ Definition construct (st : strategy) (stakes : list N) (order : list N) : cres s
       end
     end
   | StFA1Stake k =>
-    match fa1_prepare stakes k with
+    match fa1_prepare cv stakes k with
     | None => CPanic
     | Some p => if windex_ok (f1_weights p) then COk (SmFA1Stake (f1_required p) (f1_weights p) (f1_kprime p) k)
                 else CPanic
     end
   | StFA2 k =>
-    match fa2_new stakes k with
+    match fa2_new cv stakes k with
     | Some s => COk (SmFA2 s)
     | None => CPanic
     end
@@ -643,6 +683,80 @@ Definition sample_quorum (sm : sampler) (s : stream) : res (list N) :=
   | SmFA1Part required bins k => fa1_sample required k (lenN bins) (partition_sample bins) s
   | SmFA1Stake required ws kprime k => fa1_sample required k kprime (iid (N.to_nat kprime) (stake_sample ws)) s
   | SmFA2 st => fa2_sample st s
+  end.
+
+(* ------------------------------------------------------------------ *)
+(* rand's slice shuffle on a fixed-seed StdRng (PartitionSampler::new)  *)
+(* ------------------------------------------------------------------ *)
+(* calculate_bound_u32(m): the longest product m * (m+1) * .. that fits u32, and its number of factors *)
+Fixpoint calc_bound (fuel : nat) (product current m : N) : N * N :=
+  match fuel with
+  | O => (product, current - m)
+  | S f => if product * current <? W32 then calc_bound f (product * current) (current + 1) m
+           else (product, current - m)
+  end.
+Definition calculate_bound_u32 (m : N) : N * N := calc_bound 33 m (m + 1) m.
+
+(* IncreasingUniform: n, chunk, chunk_remaining *)
+Record incr := mkIncr { iu_n : N; iu_chunk : N; iu_rem : N }.
+(* next_index: a number in [0, n], then n grows by one; several indices are cut from one u32 draw *)
+Definition next_index (st : incr) (s : stream) : res (N * incr) :=
+  let next_n := iu_n st + 1 in
+  let fresh :=
+    if 0 <? iu_rem st then Ok (iu_chunk st, iu_rem st - 1) s
+    else
+      let '(bound, remaining) := calculate_bound_u32 next_n in
+      match canon 32 next_u32 bound s with                       (* rng.random_range(..bound) on u32 *)
+      | Ok c s1 => Ok (c, remaining - 1) s1
+      | Panic => Panic
+      | Starved => Starved
+      end in
+  match fresh with
+  | Ok (chunk, ncr) s1 =>
+    if ncr =? 0 then Ok (chunk, mkIncr next_n chunk 0) s1
+    else Ok (chunk mod next_n, mkIncr next_n (chunk / next_n) ncr) s1
+  | Panic => Panic
+  | Starved => Starved
+  end.
+
+Definition swap_list (l : list N) (i j : nat) : list N :=
+  let x := nth i l 0 in
+  let y := nth j l 0 in
+  set_nthN (set_nthN l i (fun _ => y)) j (fun _ => x).
+(* partial_shuffle(rng, len): for i in 0..len { swap(i, next_index()) } *)
+Fixpoint shuffle_go (todo i : nat) (l : list N) (st : incr) (s : stream) : res (list N) :=
+  match todo with
+  | O => Ok l s
+  | S t =>
+    match next_index st s with
+    | Ok (idx, st') s1 => shuffle_go t (S i) (swap_list l i (N.to_nat idx)) st' s1
+    | Panic => Panic
+    | Starved => Starved
+    end
+  end.
+(* <[T] as SliceRandom>::shuffle for slices shorter than u32::MAX *)
+Definition shuffle (l : list N) (s : stream) : res (list N) :=
+  if Nat.leb (length l) 1 then Ok l s else shuffle_go (length l) 0 l (mkIncr 0 0 1) s.
+
+(* the order PartitionSampler::new puts n validators in: shuffle of the validator vector (ids 0..n-1 in order)
+   with StdRng::from_seed([0; 32]).  At most two words are drawn per element; None only if the materialised
+   keystream were too short. *)
+Definition fixed_order (n : N) : option (list N) :=
+  let ids := map fst (indexed 0 (repeat 0 (N.to_nat n))) in
+  match shuffle ids (stdrng (S (S (Nat.div (N.to_nat n) 8))) (repeat 0 32)) with
+  | Ok l _ => Some l
+  | _ => None
+  end.
+
+(* the constructors of the current tree: a function of (strategy, stakes) only *)
+Definition construct_current (st : strategy) (stakes : list N) : cres sampler :=
+  match st with
+  | StPartition _ | StFA1Part _ =>
+    match fixed_order (lenN stakes) with
+    | Some order => construct Current st stakes order
+    | None => CPanic
+    end
+  | _ => construct Current st stakes []
   end.
 
 (* the scripted stream of the correspondence check: xorshift32 words (state never 0 for a non-zero seed),
